@@ -39,9 +39,9 @@ def usb_checksum(pkt) -> int:
     return sum(pkt[2:19]) & 0xFF
 
 
-def usb_frame(ident: int, data: bytes) -> bytes:
+def usb_frame(ident: int, data: bytes, pad: int = 0) -> bytes:
     assert len(data) <= 8
-    p = bytes([0xAA, 0x55, 0x01, 0x02, 0x01]) + ident.to_bytes(4, "little") + bytes([len(data)]) + data + bytes(8 - len(data)) + b"\x00"
+    p = bytes([0xAA, 0x55, 0x01, 0x02, 0x01]) + ident.to_bytes(4, "little") + bytes([len(data)]) + data + bytes([pad]) * (8 - len(data)) + b"\x00"
     return p + bytes([usb_checksum(p)])
 
 
